@@ -7,6 +7,7 @@ CONSTANTS
   MaxJ = 1
   Strict = TRUE
   JumboInside = FALSE
+  ExportUnspecLen = 4
   Variant = "code"
 INVARIANTS Refinement
 ACTION_CONSTRAINT Export
